@@ -196,7 +196,7 @@ func c16Effective(e *c16Env, main c16CredSpec, decoy *c16CredSpec, formOK bool, 
 	return class, uid, fmt.Sprintf("kind%d", specs[best].kind())
 }
 
-func c16GateExec(c c16GateCase) (o kit.Outcome) {
+func c16GateExec(c c16GateCase, tol func(*kit.Viol) bool) (o kit.Outcome) {
 	cls := map[string]bool{}
 	defer func() { o.Classes = c16SortedKeys(cls) }()
 	if len(c.Reqs) == 0 {
@@ -472,8 +472,18 @@ func c16GateExec(c c16GateCase) (o kit.Outcome) {
 			if r.Up && w.file != nil && len(w.file) == 0 && rep.code >= 500 {
 				sig = "gate:empty-file-internal-error"
 			}
-			o.Viol = kit.V(sig, "%s: carries a valid key and valid credentials, an implemented method and fits the limit, but was answered %d %s",
+			v := kit.V(sig, "%s: carries a valid key and valid credentials, an implemented method and fits the limit, but was answered %d %s",
 				what, rep.code, c16Short(rep.body))
+			if ve := noEffect("refused-request"); ve != nil {
+				o.Viol = ve
+				return o
+			}
+			if tol(v) {
+				cls["listed-finding:"+sig] = true
+				refused++
+				continue
+			}
+			o.Viol = v
 			return o
 		}
 		if plan.headOnly {
@@ -610,5 +620,9 @@ func c16JudgeDownload(what string, rep c16Reply, target *c16Stored, asAtt bool) 
 }
 
 func TestC16Gate(t *testing.T) {
-	kit.Check(t, "C16", "TestC16Gate", c16GateGen, c16GateExec)
+	r := kit.Begin("C16", "TestC16Gate")
+	defer r.Flush()
+	kit.CheckRun(t, r, c16GateGen, func(c c16GateCase) kit.Outcome {
+		return c16GateExec(c, func(v *kit.Viol) bool { return r.IsKnown(v.Sig) && r.Violation(v, c) })
+	})
 }
